@@ -531,7 +531,18 @@ def _wrap_run_step(cls):
     if orig is None or getattr(orig, "_vs_wrapped", False):
         return
 
-    def _run_step(self, profile, prev_state, store_states=False):
+    import inspect as _inspect
+
+    sig = _inspect.signature(orig)
+
+    def _run_step(self, *args, **kwargs):
+        # the wrapper must not alter the call: arguments are forwarded untouched and `store_states` is read with the
+        # ORIGINAL function's default (a wrapper default of its own once masked a seeded change of that default)
+        bound = sig.bind(self, *args, **kwargs)
+        bound.apply_defaults()
+        profile = bound.arguments.get("profile")
+        prev_state = bound.arguments.get("prev_state")
+        store_states = bool(bound.arguments.get("store_states", False))
         seam = ACTIVE
         if store_states:
             n = self.__dict__.get("_vs_n", 0) + 1
@@ -544,7 +555,7 @@ def _wrap_run_step(cls):
             seam.ctx.append((type(self).__name__, prev_state.round_number + 1, bool(store_states)))
         prev_c = canon.cstate(prev_state) if store_states else None
         try:
-            out = orig(self, profile, prev_state, store_states)
+            out = orig(self, *args, **kwargs)
         finally:
             if seam is not None:
                 seam.ctx.pop()
